@@ -349,6 +349,23 @@ static int kindOfType(uint32_t t)
     return -1;
 }
 
+// the type tag of a payload object is part of its state: FWD can change it through the public setters before the wrapper runs
+template <class P>
+static void applyRetag(P& o, int r)
+{
+    using MT = decltype(o.getMessageType());
+    switch (r)
+    {
+        case 1: o.setRawPayloadType(1); break;
+        case 2: o.setRawPayloadType(2); break;
+        case 3: o.setRawPayloadType(3); break;
+        case 4: o.setRawPayloadType(8); break;
+        case 5: o.setMessageType(static_cast<MT>(3)); break;
+        case 6: o.setMessageType(static_cast<MT>(1)); o.setRawPayloadType(0); break;
+        case 7: o.setRawPayloadType(0xFF); break;
+        default: break;
+    }
+}
 #include "gen_dispatch.inc"  // generated by translator/cxx2coq.py: bool accDispatch(cls, method, mem, arg, out)
 
 static std::string obsPacket(const Packet& p);
@@ -1145,7 +1162,7 @@ struct World
             Bytes mem(B(0));
             unsigned long long ret = 0;
             int hasRet = 0;
-            bool ok = fwdDispatch(static_cast<int>(N(0)), mem, static_cast<unsigned long long>(N(1)), static_cast<unsigned long long>(N(2)), ret, hasRet);
+            bool ok = fwdDispatch(static_cast<int>(N(0)), mem, static_cast<unsigned long long>(N(1)), static_cast<unsigned long long>(N(2)), ret, hasRet, static_cast<int>(N(3)));
             if (!ok)
                 out << "A ?\n";
             else if (hasRet)
